@@ -162,6 +162,8 @@ pub fn c01(ctx: &Ctx, rep: &mut Report) {
 
 #[derive(Clone, Debug)]
 enum St {
+    /// `let v = v + 100`: the initializer reads the outer v
+    LetInc(u8),
     Let(u8),
     Assign(u8),
     Read(u8),
@@ -177,7 +179,7 @@ enum St {
     While2(Box<St>),
 }
 
-const LEAVES: u64 = 11;
+const LEAVES: u64 = 13;
 
 struct Counts {
     t: Vec<u64>,
@@ -212,7 +214,9 @@ fn unrank_tree(c: &Counts, k: usize, mut i: u64) -> St {
             7 => St::CallFw,
             8 => St::CallFd,
             9 => St::CallMr,
-            _ => St::CallMw,
+            10 => St::CallMw,
+            11 => St::LetInc(0),
+            _ => St::LetInc(1),
         };
     }
     if i < c.s[k - 1] {
@@ -270,6 +274,10 @@ impl Emit {
                 self.k += 1;
                 AST::variable(idn(Self::var(*v)), AST::Integer(self.k))
             }
+            St::LetInc(v) => AST::variable(
+                idn(Self::var(*v)),
+                AST::call_method(AST::access_variable(idn(Self::var(*v))), idn("+"), vec![AST::Integer(100)]),
+            ),
             St::Assign(v) => {
                 self.k += 1;
                 AST::assign_variable(idn(Self::var(*v)), AST::Integer(self.k))
@@ -338,7 +346,8 @@ fn c12_object() -> AST {
 }
 
 /// Build the program for sequence `seq` placed in context `cx`:
-/// 0 top level, 1 block at top level, 2 function body, 3 method body.
+/// 0 top level, 1 block at top level, 2 function body, 3 method body, 4 method of an object
+/// literal inside a top-level block.
 fn c12_program(seq: &[St], cx: u8) -> AST {
     let mut top = Vec::new();
     c12_prelude(&mut top);
@@ -366,6 +375,21 @@ fn c12_program(seq: &[St], cx: u8) -> AST {
             top.push(AST::call_function(idn("run"), vec![AST::Integer(301)]));
             top.push(AST::print("end x=~ y=~;".into(), vec![AST::access_variable(idn("x")), AST::access_variable(idn("y"))]));
         }
+        4 => {
+            // a method of an object literal written inside a top-level block, whose body mentions
+            // names that are also block-locals of that block
+            top.push(c12_object());
+            top.push(AST::variable(idn("x"), AST::Integer(100)));
+            top.push(AST::variable(idn("y"), AST::Integer(200)));
+            top.push(AST::block(vec![
+                AST::variable(idn("x"), AST::Integer(50)),
+                AST::variable(idn("pad"), AST::Integer(51)),
+                AST::variable(idn("h2"), AST::object(AST::Null, vec![AST::function(idn("run"), vec![idn("y")], AST::block(body))])),
+                AST::call_method(AST::access_variable(idn("h2")), idn("run"), vec![AST::Integer(7)]),
+                AST::print("blk x=~ pad=~;".into(), vec![AST::access_variable(idn("x")), AST::access_variable(idn("pad"))]),
+            ]));
+            top.push(AST::print("end x=~ y=~;".into(), vec![AST::access_variable(idn("x")), AST::access_variable(idn("y"))]));
+        }
         _ => {
             top.push(c12_object());
             top.push(AST::variable(idn("x"), AST::Integer(100)));
@@ -385,9 +409,59 @@ fn c12_program(seq: &[St], cx: u8) -> AST {
     AST::top(top)
 }
 
+/// Programs in which FML's compile order (else-branch before then-branch, loop body before
+/// condition) lets a later `let` capture an earlier use. Known finding, see DESIGN.md §6 D8.
+const HAZARD_PROBES: [(&str, &str); 4] = [
+    ("if", "let y = 0;\nbegin\n  if true then print(\"then y=~;\", y) else let y = 1;\n  0\nend;\n"),
+    ("if", "let y = 0;\nfunction f(c) -> begin if c then print(\"f then y=~;\", y) else let y = 1; 0 end;\nf(true);\n"),
+    ("loop", "let y = 0;\nlet c = 0;\nbegin\n  while (c <- c + 1) < 3 & y == 0 do let y = 5;\n  print(\"after y=~;\", y)\nend;\n"),
+    ("loop", "let y = 0;\nlet o = object begin function m(c) -> begin while (c <- c + 1) < 3 & y == 0 do let y = 5; y end; end;\nprint(\"m=~;\", o.m(0));\n"),
+];
+
+fn c12_hazard_probes(rep: &mut Report) {
+    for (kind, src) in HAZARD_PROBES.iter() {
+        rep.evaluations += 1;
+        let ast = match real::parse(src) {
+            Ok(a) => a,
+            Err(e) => {
+                rep.inconsistency(format!("hazard probe does not parse: {}", e));
+                continue;
+            }
+        };
+        let out = super::super::refsem::run(&ast, default_limits());
+        if out.order_hazard.is_none() || !out.judged() {
+            rep.inconsistency(format!("hazard probe not recognised as a compile-order hazard: {:?} {:?}", out.order_hazard, out.res));
+            continue;
+        }
+        rep.conclusive += 1;
+        let p = real::pipeline_from_ast(&ast, cap_for(&out), true);
+        let (r_out, r_ok) = match (&p.stage_error, &p.run) {
+            (Some(_), _) => (String::new(), false),
+            (None, Some(r)) => (r.out.clone(), r.ok),
+            _ => unreachable!(),
+        };
+        if r_ok != !out.failed() || r_out != out.out {
+            rep.violation(
+                &format!("C12:compile-order-hazard:{}", kind),
+                format!("a use that textually precedes a `let` of the same name is captured by it: expected ok={} out={:?}, observed ok={} out={:?}\n{}", !out.failed(), out.out, r_ok, r_out, src),
+                json!({"check":"C12","src":src,"hazard":kind}),
+            );
+        }
+    }
+}
+
 pub fn c12(ctx: &Ctx, rep: &mut Report) {
+    if let Some(r) = &ctx.replay {
+        if r.get("hazard").is_some() {
+            c12_hazard_probes(rep);
+            return;
+        }
+    }
     if run_replay(ctx, rep, "C12") {
         return;
+    }
+    if ctx.shard == 0 {
+        c12_hazard_probes(rep);
     }
     let max_all = if ctx.quick() { 4 } else { 5 };
     let max_sample = 7;
@@ -422,7 +496,7 @@ pub fn c12(ctx: &Ctx, rep: &mut Report) {
                 rng0.next_u64() % total
             };
             let seq = unrank_seq(&c, n, i);
-            for cx in 0..4u8 {
+            for cx in 0..5u8 {
                 let ast = c12_program(&seq, cx);
                 let src = match printer::to_source(&ast) {
                     Ok(s) => s,
@@ -434,8 +508,8 @@ pub fn c12(ctx: &Ctx, rep: &mut Report) {
                 let mut rng = ctx.rng("C12j", i);
                 let j = judge(rep, "C12", &format!("n{}#{}@{}", n, i, cx), &ast, &src, &mut rng, JudgeOpts::fast());
                 rep.bump("c12-size", &format!("{}", n));
-                rep.bump("c12-context", ["top", "block", "function", "method"][cx as usize]);
-                if j.judged && (i * 4 + cx as u64) % 20011 == 7 {
+                rep.bump("c12-context", ["top", "block", "function", "method", "method-in-block"][cx as usize]);
+                if j.judged && (i * 5 + cx as u64) % 20011 == 7 {
                     judge_cli(rep, "C12", &format!("n{}#{}@{}", n, i, cx), &src, &j.outcome, &dir, i);
                 }
                 if let Res::Static(_) = j.outcome.res {
